@@ -317,8 +317,11 @@ def build(j, fns):
     if k == 'call':
         return glom.Call(B(j['func']), args=B(j['args']), kwargs=B(j['kwargs']))
     if k == 'invoke':
-        f = B(j['func'])
-        inv = glom.Invoke(f)
+        fj = j['func']
+        if j.get('func_is_spec') and fj.get('k') == 'specW' and not fj.get('scope'):
+            inv = glom.Invoke.specfunc(B(fj['s']))      # = Invoke(Spec(..)): the function is given by a spec
+        else:
+            inv = glom.Invoke(B(fj))
         for b in j['blocks']:
             pos = [B(x) for x in b['pos']]
             kw = OrderedDict((n, B(v)) for n, v in b['kw'])
